@@ -27,3 +27,9 @@ pub mod f3 {
 pub mod xp {
     include!("x_probe.rs");
 }
+pub mod f0 {
+    include!("f0_base.rs");
+}
+pub mod f8 {
+    include!("f8_iter.rs");
+}
